@@ -368,6 +368,18 @@ def run(ctx):
                    'product wraps and the result is not monotone in the number' % (
                        32, (narrow[0].get('ct') or '?') if narrow else '', render(narrow[0])[:50] if narrow else ''),
                    how='%d multiplication(s) with the parsed number, all in a 64-bit type' % nmul)
+    # sizeof of a pointer is the size of the pointer: as the bound of the digit scan it reads 6 digits and takes the 7th for
+    # a suffix ("1000000" becomes 100000)
+    ptr_sizeof = [n_ for g_ in common.with_helpers(prog, P) for n_ in g_.body.walk()
+                  if n_.k == 'UnaryExprOrTypeTraitExpr' and n_.get('trait') == 'sizeof' and n_.ch and n_.ch[0] is not None and
+                  (strip(n_.ch[0]).get('ct') or n_.ch[0].get('ct') or '').rstrip().endswith('*') or
+                  (n_.k == 'UnaryExprOrTypeTraitExpr' and n_.get('trait') == 'sizeof' and n_.ch and n_.ch[0] is not None and
+                   'const' in (n_.ch[0].get('ct') or '') and (n_.ch[0].get('ct') or '').replace('const', '').rstrip().endswith('*'))]
+    chk.ob('T4', 'no-sizeof-of-a-pointer', not ptr_sizeof, (ptr_sizeof[0] if ptr_sizeof else P).where(), P.name,
+           '%s is the size of a pointer (%s bytes), not of the text or buffer it points to: a length bound built from it stops '
+           'the digit scan early, and a number with more digits is read as a shorter one' % (
+               render(ptr_sizeof[0])[:40] if ptr_sizeof else '', ptr_sizeof[0].get('v') if ptr_sizeof else ''),
+           how='every sizeof in the length parser is applied to an array or a type', nontrivial=False)
     # the conversion routine accepts more than "digits" (white space, a sign): what it is given must be digits
     for c in P.calls():
         if c.get('callee') in TEXT_TO_INT:
